@@ -74,7 +74,7 @@ static int resolve_exec(Kernel *k, Proc *c, const char *file, char *const envp[]
 }
 
 // NOTE: this function ends with coro_abandon(): no object with a destructor may be alive at that point.
-static int do_exec(Kind kind, const char *file, char *const argv[], char *const envp[], bool search) {
+static int do_exec(Kind kind, const char *file, char *const argv[], char *const envp[], bool search, bool search_callers_path = false) {
   Kernel *k = K; Thread *t = k->cur;
   k->enter_call(kind);
   if (!t || !t->child) { k->fatal = "exec outside a forked child"; errno = ENOSYS; return -1; }
@@ -85,7 +85,7 @@ static int do_exec(Kind kind, const char *file, char *const argv[], char *const 
   {
     std::string chosen;
     int err = 0;
-    node = resolve_exec(k, c, file, envp, search, &chosen, &err);
+    node = resolve_exec(k, c, file, search_callers_path ? environ : envp, search, &chosen, &err);
     if (node < 0) { delete img; FAIL(kind, (int64_t) str_hash(file ? file : ""), 0, 0, err, 0); }
     img->path_resolved = chosen;
     img->path_arg = file;
@@ -136,7 +136,7 @@ pid_t simk_vfork(void) { return simk_fork(); }
 int simk_execvp(const char *file, char *const argv[]) { return do_exec(K_execvp, file, argv, environ, true); }
 int simk_execv(const char *file, char *const argv[]) { return do_exec(K_execvp, file, argv, environ, false); }
 int simk_execve(const char *file, char *const argv[], char *const envp[]) { return do_exec(K_execvp, file, argv, envp, false); }
-int simk_execvpe(const char *file, char *const argv[], char *const envp[]) { return do_exec(K_execvp, file, argv, envp, true); }
+int simk_execvpe(const char *file, char *const argv[], char *const envp[]) { return do_exec(K_execvp, file, argv, envp, true, true); }  // glibc: the search uses the *caller's* PATH
 
 void simk__exit(int code) {
   Kernel *k = K; Thread *t = k->cur;
